@@ -45,7 +45,7 @@ def dumpCmds (cmds : List Cmd) : String :=
 def dumpTables (s : FibSt) : String :=
   let rib := s.t.rib.reachable.map fun e =>
     ((idxOfKey s.keys e.dest).getD 0,
-      s!"{optStr (idxOfKey s.keys e.dest)}:{optStr (idxOfKey s.keys e.best.nh1)}:{e.best.low1}:{optStr (idxOfKey s.keys e.best.nh2)}:{e.best.low2}")
+      s!"{optStr (idxOfKey s.keys e.dest)}:{optStr (if e.best.low1 ≥ Spec.infinity then none else idxOfKey s.keys e.best.nh1)}:{e.best.low1}:{optStr (if e.best.low2 ≥ Spec.infinity then none else idxOfKey s.keys e.best.nh2)}:{e.best.low2}")
   let rib := (rib.mergeSort fun a b => a.1 ≤ b.1).map (·.2)
   let nbr := s.t.nbrs.map fun (k, nb) => ((idxOfKey s.keys k).getD 0, s!"{optStr (idxOfKey s.keys k)}:{nb.face}")
   let nbr := (nbr.mergeSort fun a b => a.1 ≤ b.1).map (·.2)
